@@ -10,6 +10,8 @@ import os
 from dataclasses import dataclass, field
 from typing import Dict, List, Optional, Tuple, Union
 
+from .normal import normalise
+
 
 class AnalysisError(Exception):
     """The analysis cannot be carried out (anchor vanished, parse failure ...)."""
@@ -153,6 +155,7 @@ class Program:
                     tree = ast.parse(src, filename=path)
                 except SyntaxError as e:
                     raise AnalysisError(f"cannot parse {rel}: {e}")
+                tree = normalise(tree)
                 set_parents(tree)
                 mod = Module(name=name, path=path, relpath=rel, source=src, tree=tree)
                 self.modules[name] = mod
